@@ -60,7 +60,7 @@ type MemFile struct {
 	dirNames   []string      // dirNames stores the names of the file returned by Readdirnames function.
 	at         int64         // at is current position in the file used by Read and Write functions.
 	dirIndex   int           // dirIndex is the position of the current index for dirEntries ou dirNames slices.
-	mu         sync.RWMutex  // mu is the RWMutex used to access content of MemFile.
+	mu         verifRWMutex  // mu is the RWMutex used to access content of MemFile.
 	openMode   avfs.OpenMode // openMode defines the permissions to check for OpenFile and CheckPermission functions.
 }
 
@@ -127,7 +127,7 @@ type symlinkNode struct {
 
 // baseNode is the common structure of directories, files and symbolic links.
 type baseNode struct {
-	mu    sync.RWMutex // mu is the RWMutex used to access the content of the node.
+	mu    verifRWMutex // mu is the RWMutex used to access the content of the node.
 	mtime int64        // mtime is the modification time.
 	mode  fs.FileMode  // mode represents a file's mode and permission bits.
 	uid   int          // uid is the user id.
